@@ -5,10 +5,12 @@ Programs derived from Syntax.tla are broken by one of three edits that are guara
 truncation right after a token that demands a continuation): at least one error must be delivered.  For every
 input (these, Lexer.tla's cover, random bytes): errors have a non-empty message, no position or an in-range one
 with correct lines, arrive in source order; zero errors => non-nil root; the tree does not depend on whether a
-callback is installed."""
+callback is installed.  LRDriver.tla specifies goyacc's parser loop with its error recovery (Errflag, report, pop, error shift,
+discard, abort); the real yyParse runs with its debug stream on, and TLC validates every recorded step against
+LRTrace.tla (ReportedBeforeAbort, ReportedBeforeRecovery, CallbackAgrees, InputAccounting at every step)."""
 import random
 
-from . import core, syntax, progs, lexgen, c01, semerr
+from . import core, syntax, progs, lexgen, c01, semerr, lrtrace
 
 CLOSERS = {b")", b"]", b"}"}
 CONT = {b"+", b"-", b"*", b"/", b".", b"=", b"(", b"[", b"{", b",", b"->", b"::", b"=>", b"&&", b"||", b"?", b"==", b"<", b">", b"%", b"&", b"|", b"^",
@@ -129,6 +131,50 @@ def run(tier):
             check.violation({"class": "tree-depends-on-callback", "family": t["ver"][0]},
                             {"src": t["src"], "ver": t["ver"], "with_callback": [r.get("root"), r.get("fp")], "without": [rn.get("root"), rn.get("fp")]})
     check.cov["semantic_error_programs"] = len(sem)
+    # the goyacc driver itself (LRDriver.tla): traces of yyParse on broken programs, action-reported errors and random bytes are
+    # validated by TLC against LRTrace.tla; every detection with Errflag = 0 must reach the callback, an abort needs a report,
+    # recovery only pops and discards
+    cap = 250 if tier == "quick" else 4000
+    lsrc = [(f, b.decode("latin-1")) for f, _, b in broken[:: max(1, len(broken) // cap)]]
+    lsrc += [("5", p["src"]) for p in sem[::7]] + [("7", p["src"]) for p in sem[::11]]
+    lsrc += [(["7", "5"][i % 2], b.decode("latin-1")) for i, b in enumerate(c01.random_inputs(rng, cap, 12))]
+    for family in ("7", "5"):
+        ver = progs.VERS[family][0]
+        mine = [x for f, x in lsrc if f == family]
+        lt = [{"op": "lrtrace", "src": x, "ver": ver, "tables": i == 0} for i, x in enumerate(mine)]
+        lres = wp.run(lt)
+        r2 = None
+        traces = []
+        for t, r in zip(lt, lres):
+            if r.get("panic") or r.get("hang") or r.get("crash"):
+                continue
+            r2 = r2 or r.get("r2")
+            if r.get("unknown_lines"):
+                raise core.InfraError("goyacc debug stream has lines the recorder does not know (%d) for %r" % (r["unknown_lines"], t["src"][:80]))
+            traces.append(({"src": t["src"], "ver": ver}, lrtrace.flatten(r)))
+        if not traces or not r2:
+            raise core.InfraError("no driver trace recorded for family " + family)
+        for meta, evs in traces:
+            for e in evs:
+                if e["k"] == "reduce":
+                    e["_n"] = r2[e["r"]] if 0 <= e["r"] < len(r2) else None
+        nev = sum(len(e) for _, e in traces)
+        check.count(len(traces))
+        check.cov["driver_trace_events_%s" % family] = nev
+        for meta, what, at, ctx in lrtrace.validate_all([(m, [{k: v for k, v in e.items() if k != "_n"} for e in evs]) for m, evs in traces], r2, check, "php" + family):
+            evs = [ev for m, ev in traces if m is meta][0]
+            rd = lrtrace.rederive(evs)
+            if rd is None:
+                raise core.InfraError("LRTrace rejected a driver trace (%s at %s) that the independent re-derivation accepts: %r" % (what, at, meta["src"][:120]))
+            check.violation({"class": "driver-" + rd[1], "family": family}, {"src": meta["src"], "ver": meta["ver"], "event_index": rd[0], "context": evs[max(0, rd[0] - 4):rd[0] + 1], "tlc": what})
+        check.cov["traces_validated_against_impl_driver_%s" % family] = len(traces)
+        # binding self-test: a trace that lost its error report must be rejected
+        witherr = [evs for _, evs in traces if any(e["k"] == "err" for e in evs)]
+        if witherr:
+            bad = [{k: v for k, v in e.items() if k != "_n"} for e in witherr[0] if e["k"] != "err"]
+            violated, _ = lrtrace.validate(bad, r2, check, "selftest-php" + family)
+            if violated is None:
+                raise core.InfraError("binding self-test failed: a driver trace without its error event was accepted")
     check.cov["traces_validated_against_impl"] = check.cov["evaluations"]
     check.assumptions += ["the three edit kinds leave the language for every bracket-balanced program of Syntax.tla (brackets inside string bodies excluded)",
                           "line rule LF/CRLF/CR for error positions"]
